@@ -18,7 +18,13 @@ Record mreq := mkMReq {
   mr_accessing : list N;               (* CurrAccessingGPUs *)
   mr_groups : list (N * list N);       (* GPUReqToVAddrMap as (GPU number, pages), ascending GPU number *)
   mr_host : N;                         (* CurrPageHostGPU *)
-  mr_pid : N; mr_pagesize : N; mr_top : bool }.
+  mr_pid : N; mr_pagesize : N; mr_top : bool;
+  mr_order : list N;
+  mr_rorder : list N }.
+(** [mr_order], [mr_rorder]: the orders (GPU numbers) in which Go's map iteration
+    `for gpuID, vAddrs := range pageVaddrs` visited the groups in
+    processShootdownCompleteRsp and in preparePageMigrationRspToMMU; not
+    deterministic, so part of the scenario (observed by the harness). *)
 
 (** messages on the GPU port, [g] = index into Driver.GPUs (from 0) *)
 Inductive cmd :=
@@ -87,8 +93,13 @@ Definition pages_of (n : N) (q : mreq) : list N := flat_map snd (groups_of n q).
 Definition bD (n : N) : list cmd := map CDrain (gpus n).
 Definition bS (n : N) (q : mreq) : list cmd :=
   map (fun g1 => CShoot (g1 - 1) (pages_of n q) (mr_pid q)) (mr_accessing q).
-Definition bM (n : N) (q : mreq) : list cmd :=
-  flat_map (fun gp => map (fun va => CMig (fst gp - 1) (mr_host q) (mr_pagesize q) va) (snd gp)) (groups_of n q).
+(** the groups in the order of the map iteration *)
+Definition ordered_by (ord : list N) (gs : list (N * list N)) : list (N * list N) :=
+  flat_map (fun g1 => filter (fun gp => fst gp =? g1) gs) ord.
+Definition ordered_groups (n : N) (q : mreq) : list (N * list N) := ordered_by (mr_order q) (groups_of n q).
+Definition mig_of (q : mreq) (gp : N * list N) : list cmd :=
+  map (fun va => CMig (fst gp - 1) (mr_host q) (mr_pagesize q) va) (snd gp).
+Definition bM (n : N) (q : mreq) : list cmd := flat_map (mig_of q) (ordered_groups n q).
 Definition bR (q : mreq) : list cmd := map (fun g1 => CRestart (g1 - 1)) (mr_accessing q).
 Definition bRR (n : N) : list cmd := map CRdmaRestart (gpus n).
 
@@ -109,7 +120,7 @@ Definition page_reqs (s : hs) (q : mreq) : hs :=
 Definition restart_and_answer (s : hs) (q : mreq) : hs :=
   s <| h_tosend := h_tosend s ++ bR q |>
     <| h_nrestart := h_nrestart s + N.of_nat (length (mr_accessing q)) |>
-    <| h_tommu := Some (mkMRsp (mr_src q) (pages_of (h_ngpu s) q) (mr_top q)) |>.
+    <| h_tommu := Some (mkMRsp (mr_src q) (flat_map snd (ordered_by (mr_rorder q) (groups_of (h_ngpu s) q))) (mr_top q)) |>.
 
 (* processReturnReq: one response per tick *)
 Definition process_return (s : hs) : hs :=
